@@ -38,24 +38,24 @@ CHECKS = {
     'C06': dict(
         category='model_checking',
         text='Bounded model checking of the real run loop: t0, dt, Tend symbolic reals, time step an uninterpreted function G(u,t); every feasible block/step pattern executed; per path SMT '
-             'validity of tiling (start k = t0 + k dt), exact chaining (congruence over G), returned value and minimal step count; coverage certificate. Bounds: 1..4 (8) steps per block, <= 10 (12) steps. '
+             'validity of tiling (start k = t0 + k dt), exact chaining (congruence over G), returned value and minimal step count; coverage certificate. Bounds: 1..4 (8) steps per block, <= 10 (12) steps. Also: one symbolic step size per step of the controller (state left by an adaptive run), restart histories (with symbolic convergence patterns), and adaptive runs with the real Adaptivity in the loop (symbolic error estimates, shared with C09). '
              'Second layer: concolic IEEE-double execution of the same run + QF_FP query for an extra step (counterexample finder, thorough tier), witnesses re-executed in the quick tier.',
-        note='Trusted: z3; direct-solver probe sweeper contract; real arithmetic in layer 1. Known finding: extra step from accumulated rounding (known_findings.json). Outside: adaptive dt (C09), MPI/ParaDiag controllers, multi-level.',
+        note='Trusted: z3; direct-solver probe sweeper contract; real arithmetic in layer 1. Known finding: extra step from accumulated rounding (known_findings.json). Outside: MPI/ParaDiag controllers, multi-level value chaining (C01), more steps than the bounds.',
         design='4/C06', technique='symbolic execution of the real controller (reals + uninterpreted function) with SMT validity queries; concolic floating-point execution + QF_FP query',
     ),
     'C09': dict(
         category='model_checking',
         text='(a) one transition of the real restart state machine (determine_restart, prepare_next_block, step-size spreading) from an arbitrary symbolic state, SMT validity per path + coverage; '
              '(b) bounded exploration of the real controller over all restart-request histories (symbolic request at every (step, attempt)); (c) real step-size formula, limiters and '
-             'Adaptivity / AdaptivityRK / AdaptivityResidual / the adaptivity classes for converged collocation problems on symbolic reals (power encoded algebraically). Bounds: NP<=3(4), max_restarts<=2(3), <=5(6) steps, order<=5.',
-        note='Trusted: z3; injected restart requests stand for the error estimators; beta<1 for the strict-decrease clause. Outside: estimators, avoid_restarts, StepSizeRounding, interpolation between restarts, MPI.',
+             'Adaptivity / AdaptivityRK / AdaptivityResidual / the adaptivity classes for converged collocation problems (also stopping by increment) / avoid_restarts on symbolic reals (power encoded algebraically), limiters taken from a real controller in its call order; (d) adaptive runs: the real controller with the real Adaptivity, embedded estimator (estimate replaced by a fresh positive real per call), limiter, restarting and spreading; t0, dt, Tend, dt_min, dt_max symbolic; per path tiling, chaining, accepted-within-tolerance, proposal formula and clip, one step size per block, smaller retry. Bounds: NP<=3(4), max_restarts<=2(3), <=5(6) steps, order<=5; (d) <= 3 accepted steps, order 1 (2).',
+        note='Trusted: z3; injected restart requests stand for the error estimators; beta<1 for the strict-decrease clause. Known finding: later step accepted above the tolerance when the block budget is used up (known_findings.json). Outside: the numerical estimators, StepSizeRounding, MPI.',
         design='4/C09', technique='symbolic execution of real convergence controllers + SMT (LIA/NRA) validity; symbolic path exploration of restart histories',
     ),
     'C14': dict(
         category='other',
         text='(a) real filter_stats/get_list_of_types on dictionaries with symbolic integer key fields: every path proved equal to the specification, coverage certified; sort_stats by CrossHair contracts; '
              '(b) every explored convergence pattern / restart history of the real controller with all logging hooks: one correctly keyed record per accepted step and type, niter = iteration callbacks, '
-             'work_rhs = evaluations made, no silent key collisions; (c) every ordered pair of shipped hook classes is registered exactly once through both routes (hook_class list, add_hook) (enumerated, concrete).',
+             'work_rhs / work_newton = evaluations / solver calls made (with work done between steps), per-sweep records = sweep callbacks per level, no silent key collisions; (c) every ordered pair of shipped hook classes is registered exactly once through both routes (hook_class list, add_hook) (enumerated, concrete).',
         note='Trusted: z3, CrossHair (only "Confirmed over all paths" counts). Restart generation and entry type are enumerated. Outside: LogSolutionAfterIteration, values of timing hooks, file-writing hooks, MPI gathering, > 4 entries.',
         design='4/C14', technique='symbolic execution of real helpers (z3) + CrossHair contracts; path exploration of the real controller with recording hooks',
     ),
@@ -64,7 +64,7 @@ CHECKS = {
         text='The real FieldsIO methods run against a symbolic file (byte length, offsets, number of variables, completed records k, crash offset c, read index are z3 integers; '
              'writes/reads are extents with provenance): SMT (QF_NIA) validity per path of nFields = k after any crash, reads of idx in [-k,k) touch exactly record idx, others rejected, '
              'append after a crash is aligned/read back/does not disturb old records, header round trip; coverage certificates. Block decomposition: CrossHair contracts (contiguity, '
-             'exact cover, factorisation) over symbolic sizes. Bit-exact numpy round trips (all dtypes, C / Fortran / transposed / strided memory layouts) and the crash scenario at every byte offset are replayed on real files.',
+             'exact cover, factorisation) over symbolic sizes, rank counts 1..64 x both algorithms ENUMERATED for the number of blocks and exact cover on concrete grids. The shipped LogToFile hook in five enumerated real-file scenarios (overwrite protection per hook class). Bit-exact numpy round trips (all dtypes, C / Fortran / transposed / strided memory layouts) and the crash scenario at every byte offset are replayed on real files; results of earlier reads stay intact after later reads.',
         note='Trusted: z3, CrossHair; numpy tofile/fromfile transfer exactly nbytes (stub contract); a crash leaves a prefix of the interrupted write. Outside: MPI-IO, toVTR, symbolic Rectilinear grids.',
         design='4/C16', technique='symbolic execution of real I/O code on a symbolic file + SMT (QF_NIA); CrossHair contracts for the block decomposition',
     ),
@@ -89,7 +89,7 @@ CHECKS = {
         category='other',
         text='(a) CrossHair contracts over the real Step.__dict_to_list (symbolic scalar-or-list values, lists up to 4/6); (c) the real controller constructor executed with symbolic integer control orders of 2..4 '
              'convergence controllers: every ordering path proved ascending (SMT), instantiated once, user parameters override defaults, coverage certified; (b,d) rejection / frozen-attribute clauses are a finite table of '
-             'single-fault perturbations, each per-level fault placed on every non-empty subset of 2 and 3 levels through list-valued entries, executed concretely as side conditions (no solver).',
+             'single-fault perturbations (unknown names include near misses of the valid ones: suffix / case / blank variants), list-valued transfer entries on 2..4 levels, each per-level fault placed on every non-empty subset of 2 and 3 levels through list-valued entries, executed concretely as side conditions (no solver).',
         note='Trusted: CrossHair, z3. Description keys and attribute names are fixed lists. Outside: the full grammar of valid descriptions.',
         design='4/C20', technique='CrossHair contracts + symbolic execution of the controller constructor (z3); concrete side conditions for the finite rejection table',
     ),
@@ -98,14 +98,14 @@ CHECKS = {
         text='(a) for an UNINTERPRETED right-hand side f (so linear and nonlinear problems alike): the real restrict, coarse update_nodes (implicit/explicit, 2 and 3 levels, inherited tau, middle-level sweeps) and '
              'prolong/prolong_f run on z3 terms; assuming the fine level holds its collocation solution, SMT (QF_UFLRA) shows every coarse sweep leaves the restricted solution and every fine value / rhs is unchanged; '
              '(b) coarse defect after restrict == R * fine defect for arbitrary fine values and tau; (c) one real down-coarse-up-fine cycle of controller_nonMPI on arbitrary fine values equals the multigrid-in-time iteration '
-             'written with explicit matrices and solved inside the query (QF_LRA, 1e-9), on two levels and on three levels with per-level sweep counts (1e-11).',
-        note='Trusted: z3; implicit-solve stub contract (returns a root; returns the guess if it is a root); real node tables with restriction rows made exactly stochastic (~1e-16 change); injection in space. Outside: real mesh transfer classes (C11), mass matrices, >3 levels.',
+             'written with explicit matrices and solved inside the query (QF_LRA, 1e-9), on two levels and on three to five levels with per-level sweep counts (1e-11); all pairs of quadrature types on the two levels; (d) MLSDC with the shipped mesh transfer classes on shipped problems, as shipped and with copied results: bit-identical iterates (concrete, enumerated).',
+        note='Trusted: z3; implicit-solve stub contract (returns a root; returns the guess if it is a root); real node tables with restriction rows made exactly stochastic (~1e-16 change); injection in space. Outside: the shipped mesh transfer classes as operators (C11), >5 levels.',
         design='4/C10', technique='symbolic execution of real transfer/sweep code with an uninterpreted right-hand side + SMT (QF_UFLRA / QF_LRA)',
     ),
     'C19': dict(
         category='other',
         text='The real controller runs on a symbolic initial value; two runs are bit-identical for EVERY input iff their result terms and all statistics values are structurally identical z3 terms. Scenarios: fresh controller twice, '
-             'same controller two and three times, a differently configured controller (extra status variables, hooks) run in between, split at every block boundary (statistics of the halves merged); configurations include increment-based stopping (extra level status variables), a user hook with an extended entry class, a sweep-index dependent preconditioner with several sweeps. Non-identical pairs are '
+             'same controller two and three times, a differently configured controller (extra status variables, hooks) run in between, split at every block boundary (statistics of the halves merged); configurations include increment-based stopping (extra level status variables), a user hook with an extended entry class, a sweep-index dependent preconditioner with several sweeps, the shipped NewtonInexactness controller with a tolerance-dependent solver, an explicit dt_initial, several controllers built from one shared parameter dictionary. Non-identical pairs are '
              'decided over the reals by the solver and replayed on real floats.',
         note='Trusted: structural identity of terms implies bit-equal floats. Known finding: initial_guess=random (hidden RNG state). Outside: MPI, adaptive step sizes, timings.',
         design='4/C19', technique='symbolic execution of whole real runs; syntactic term identity, SMT equality over the reals as fallback',
